@@ -37,6 +37,13 @@ Proof.
 Qed.
 Print Assumptions C20_failure_warns.
 
+(* every write of the switch happens under its lock, and auto-detection re-checks the switch under
+   the lock before storing its result (regenerated from /repo's source): this is what makes the
+   register below sequentially consistent *)
+Theorem C20_switch_under_lock : SrcFacts.trickery_switch_locked = true.
+Proof. reflexivity. Qed.
+Print Assumptions C20_switch_under_lock.
+
 (* set_trickery_enabled(v): all later reads (on any thread: the register is only accessed
    under its lock, so operations are totally ordered) see v; None restores auto-detection *)
 Theorem C20_mode_switch : forall detect s v ops,
